@@ -26,6 +26,8 @@ type c19Ev struct {
 	Origin string `json:"origin"` // long | stale | swr | post200 | post500
 	Vary   string `json:"vary"`
 	Val    string `json:"val"`            // answer to a conditional request: 304 | 200
+	F      string `json:"f,omitempty"`    // request field that carries A (default X-A)
+	Deco   bool   `json:"deco,omitempty"` // the upstream sends a modified copy of the request (adds a changing Authorization) and resp.Request points to it
 	Nest   bool   `json:"nest,omitempty"` // while the conditional request is at the origin, a POST for the same URI completes through the same transport
 }
 
@@ -40,7 +42,10 @@ func (e c19Ev) String() string {
 	if e.Nest {
 		n = " +POST meanwhile"
 	}
-	return fmt.Sprintf("GET %s A=%s [%s vary=%q cond->%s%s]", shortURL(e.URL), e.A, e.Origin, e.Vary, e.Val, n)
+	if e.Deco {
+		n += " decorating-upstream"
+	}
+	return fmt.Sprintf("GET %s %s=%q [%s vary=%q cond->%s%s]", shortURL(e.URL), map[bool]string{true: "X-A", false: e.F}[e.F == ""], e.A, e.Origin, e.Vary, e.Val, n)
 }
 
 func shortURL(u string) string {
@@ -106,8 +111,14 @@ func c19Apply(w *world.W, e c19Ev) *world.Obs {
 	})
 	req := world.Req(e.Method, e.URL)
 	if e.A != "" {
-		req.Header.Set("X-A", e.A)
+		f := e.F
+		if f == "" {
+			f = "X-A"
+		}
+		req.Header.Set(f, e.A)
 	}
+	w.Origin.Decorate = e.Deco
+	defer func() { w.Origin.Decorate = false }()
 	return w.Do(req)
 }
 
@@ -224,12 +235,12 @@ type c19Scenario struct {
 func c19Scenarios(tier string) []c19Scenario {
 	const U2 = "http://example.com/other"
 	var scs []c19Scenario
-	get := func(u, a, origin, vary, val string) c19Ev { return c19Ev{"GET", u, a, origin, vary, val, false} }
+	get := func(u, a, origin, vary, val string) c19Ev { return c19Ev{Method: "GET", URL: u, A: a, Origin: origin, Vary: vary, Val: val} }
 	post := func(u string, ok bool) c19Ev {
 		if ok {
-			return c19Ev{"POST", u, "", "post200", "", "", false}
+			return c19Ev{Method: "POST", URL: u, Origin: "post200"}
 		}
-		return c19Ev{"POST", u, "", "post500", "", "", false}
+		return c19Ev{Method: "POST", URL: u, Origin: "post500"}
 	}
 	as := []string{"1", "2"}
 	origins := []string{"long", "stale", "swr"}
@@ -259,12 +270,37 @@ func c19Scenarios(tier string) []c19Scenario {
 					}
 				}
 			}
-			evs = append(evs, post(U, true), post(U, false), get(U2, "", "long", "", "304"), c19Ev{"POST", U2, "", "post200loc", "", "", false})
+			evs = append(evs, post(U, true), post(U, false), get(U2, "", "long", "", "304"), c19Ev{Method: "POST", URL: U2, Origin: "post200loc"})
 			if og == "long" {
 				evs = append(evs, c19Ev{Method: "EVICT", URL: U})
 			}
 			scs = append(scs, c19Scenario{fmt.Sprintf("%s vary{%q,%q}", og, vp[0], vp[1]), evs})
 		}
+	}
+	// a list-valued request field with bytes the index cannot hold verbatim, and an upstream that decorates a copy of the request
+	for _, og := range origins {
+		var evs []c19Ev
+		for _, a := range []string{"en", "caf\xe9, en", "\xff"} {
+			ev := get(U, a, og, "Accept-Language", "304")
+			ev.F = "Accept-Language"
+			evs = append(evs, ev)
+			if og != "long" {
+				ev.Val = "200"
+				evs = append(evs, ev)
+			}
+		}
+		evs = append(evs, post(U, true))
+		scs = append(scs, c19Scenario{fmt.Sprintf("%s list-valued field with obs-text", og), evs})
+		evs = nil
+		for _, a := range as {
+			for _, v := range []string{"Authorization", "Authorization, X-A", ""} {
+				ev := get(U, a, og, v, "304")
+				ev.Deco = true
+				evs = append(evs, ev)
+			}
+		}
+		evs = append(evs, post(U, true))
+		scs = append(scs, c19Scenario{fmt.Sprintf("%s decorating upstream", og), evs})
 	}
 	// mixed origin kinds over one Vary spec
 	for _, v := range []string{"X-A", "*", ""} {
